@@ -783,7 +783,7 @@ def int_rem_euclid(E, st, frame, b, t, c, args):
     return mk_int(lo_t, hi_t)
 
 
-@model(['min', 'max'], pred=lambda c: _int_self(c) or (c.get('trait') == 'std::cmp::Ord' and c.get('rcrate') == 'core'))
+@model(['min', 'max'], pred=lambda c: _int_self(c) or (c.get('trait') == 'std::cmp::Ord' and c.get('rcrate') == 'core') or (c.get('rdid') or c.get('did') or '') in ('core::cmp::max', 'core::cmp::min'))
 def int_minmax(E, st, frame, b, t, c, args):
     dty = E.dest_ty(frame, t)
     a = E.scalar(st, args[0], dty)
@@ -1563,6 +1563,92 @@ def deku_prim(E, st, frame, b, t, c, args):
     if n[1] <= width and okf:
         out.append((st, ('E', None, ((0, (val,)),))))
     if errf or n[2] > width:
+        out.append((s_err, ('E', None, ((1, (('T', erty, None),)),))))
+    return out
+
+
+@model(['borrow', 'borrow_mut'], trait=('std::borrow::Borrow', 'std::borrow::BorrowMut'),
+       pred=lambda c: c.get('rcrate') == 'core' and (c.get('rself') or '') in ('T',) + tuple(PRIMS))
+def borrow_identity(E, st, frame, b, t, c, args):
+    return args[0]            # impl<T> Borrow<T> for T
+
+
+@model(['new_count'], pred=lambda c: (c.get('rself') or '').startswith('deku::ctx::Limit') and c.get('rcrate') == 'deku')
+def deku_limit_count(E, st, frame, b, t, c, args):
+    return ('E', None, ((0, (args[0],)),))       # Limit::Count(n)
+
+
+def _deku_bulk_pred(c):
+    rs = c.get('rself') or ''
+    return c.get('rcrate') == 'deku' and (rs in ('[T; N]', 'std::vec::Vec<T>', 'f64', 'f32') or rs.startswith('['))
+
+
+@model(['from_reader_with_ctx'], trait='deku::DekuReader', pred=_deku_bulk_pred)
+def deku_bulk(E, st, frame, b, t, c, args):
+    """byte arrays, Vec<u8> with a count limit, floats: consume a known number of bits; can only
+    fail on a short read"""
+    dty = E.dest_ty(frame, t)
+    rty = E.types.get(dty)
+    okty = rty['variants'][0]['fields'][0].get('ty')
+    erty = rty['variants'][1]['fields'][0].get('ty')
+    oty = E.types.get(okty) if okty is not None else None
+    n = None
+    count = None
+    if oty is not None and oty['k'] == 'array' and oty.get('len') is not None and E.types.get(oty['elem'])['k'] in ('uint', 'int'):
+        n = const_int(oty['len'] * E.types.get(oty['elem'])['bits'])
+        count = oty['len']
+    elif oty is not None and oty['k'] == 'float':
+        n = const_int(oty['bits'])
+    elif oty is not None and E.types.is_seq_adt(oty) and len(args) > 1:
+        ctx = E.expand(args[1])
+        lim = E.expand(ctx[1][0]) if ctx[0] == 'A' and ctx[1] else ctx
+        if lim[0] == 'E':
+            vs = dict(st.resolve(lim)[2]) if st.resolve(lim) != BOT else {}
+            lty = E.types.get(E.operand_ty(frame, t['args'][1]))
+            ltid = lty['elems'][0] if lty['k'] == 'tuple' else None
+            names = [v['name'] for v in E.types.get(ltid)['variants']] if ltid is not None else []
+            if len(vs) == 1 and names and names[list(vs)[0]] == 'Count':
+                cv = E.scalar(st, list(vs.values())[0][0], E.types.by_name('usize'))
+                ety = E.types.seq_elem(oty)
+                if cv[0] == 'I' and ety is not None and E.types.get(ety)['k'] in ('uint', 'int'):
+                    bits = E.types.get(ety)['bits']
+                    n = mk_int(cv[1] * bits, cv[2] * bits)
+                    count = cv[1] if cv[1] == cv[2] else None
+    lv, rd = _reader_fields(E, st, args[0], pointee_ty(E, frame, t, 0))
+    site = E.site(frame, b, 'rdb')
+    if n is None:
+        if rd is not None:
+            inner = rd[1][0]
+            s_ = _stream(E, inner)
+            if s_ is not None:
+                inner = ('O', 'stream', (s_[0], None, s_[2]))
+            E.write_lv(st, lv, ('A', (inner, ('T', None, None), mk_int(0, U63), mk_int(0, U63))))
+        return ('E', T('e', site), ((0, (E.expand(('T', okty, site)),)), (1, (('T', erty, None),))))
+    sid, pos = None, None
+    if rd is not None:
+        sid, pos = _advance(E, st, frame, b, lv, rd, n)
+    E.layout_event(frame, b, t, c, sid, pos, n, c.get('rself'))
+    if oty['k'] == 'float':
+        val = ('F', -INF, INF, True, T('o', site))
+    else:
+        el = mk_int(0, 255) if E.types.get(E.types.seq_elem(oty))['bits'] == 8 else E.expand(('T', E.types.seq_elem(oty), None))
+        items = None
+        if count is not None and count <= 64:
+            its = []
+            for i in range(count):
+                if sid is not None and pos is not None and pos[1] == pos[2] and E.types.get(E.types.seq_elem(oty))['bits'] == 8:
+                    its.append(E.reg(mk_int(0, 255, 0, T('bits', sid, pos[1] + 8 * i, 8, 'u8'))))
+                else:
+                    its.append(el)
+            items = tuple(its)
+        ln = const_int(count) if count is not None else mk_int(n[1] // 8, n[2] // 8)
+        val = ('S', ln, el, items)
+    out = []
+    s_err = st.copy()
+    okf, errf = (True, True) if rd is None else _ok_needs_len(E, st, rd[1][0], pos, n)
+    if okf:
+        out.append((st, ('E', None, ((0, (val,)),))))
+    if errf:
         out.append((s_err, ('E', None, ((1, (('T', erty, None),)),))))
     return out
 
